@@ -159,7 +159,14 @@ theorem noteLabel_keep1 (s s' : DC) (x : Xml) (k : String) (h : noteLabel s x k 
   obtain ⟨_, _, h⟩ := bind_ok h
   split at h
   · have := pure_ok h; subst this; exact Keep.refl 1 s
-  · obtain ⟨_, _, h⟩ := bind_ok h; have := pure_ok h; subst this; exact keep_of_lineage rfl
+  · obtain ⟨_, _, h⟩ := bind_ok h
+    obtain ⟨s0, h0, h⟩ := bind_ok h
+    have := pure_ok h; subst this
+    have k0 : Keep 1 s s0 := by
+      rcases flushImplicit_cases s s0 _ h0 with e | e
+      · subst e; exact Keep.refl 1 _
+      · exact concludePar_keep1 s s0 e
+    exact k0.trans (keep_of_lineage rfl)
 
 theorem openParagraph_keep1 (cfg : PartCfg) (s s' : DC) (x : Xml) (c : Bool) (h : openParagraph cfg s x c = .ok s') : Keep 1 s s' := by
   unfold openParagraph at h
